@@ -213,6 +213,23 @@ def r2(ctx):
     C = P.cls(LM)
     si, di = C.methods.get("__setitem__"), C.methods.get("__delitem__")
     ctx.look(2)
+    # which supplied layers are kept: every layer that is not None — an EMPTY layer is still a layer (it may be filled later, and a
+    # mapping layered over nothing but empty layers is still a new mapping with its own private layer)
+    filt = [g for q, g in P.functions.items() if q.startswith(LM + ".") and not isinstance(g.node, ast.Lambda)]
+    kept = []
+    for g in filt:
+        for comp in ast.walk(g.node):
+            if isinstance(comp, (ast.ListComp, ast.GeneratorExp)) and len(comp.generators) == 1 and isinstance(comp.generators[0].target, ast.Name) \
+                    and norm(comp.elt) == comp.generators[0].target.id and comp.generators[0].ifs and "layers" in norm(comp.generators[0].iter):
+                kept.append((g, comp))
+    ctx.floor("C19.R2", len(kept), 1, "layer filters of LayeredMapping")
+    for g, comp in kept:
+        v = comp.generators[0].target.id
+        tests = [norm(sym.as_test(t)) for t in comp.generators[0].ifs]
+        ctx.check(tests == [f"{v} is not None"], "C19.R2", "every supplied layer that is not None becomes a layer (empty ones included)", g.module.line(comp),
+                  ctx.construct(g, text="layer filter"),
+                  f"layers are filtered by {tests}: dropping empty layers makes with_layers({{}}) return the receiver itself (writes to the result land in the "
+                  f"receiver) and hides a layer that is filled after construction")
     body = [norm(s) for s in si.node.body]
     ctx.check(body == ["self._mutations[key] = value"], "C19.R2", "__setitem__ writes only the private layer", si.where,
               ctx.construct(si, text="setitem"), f"__setitem__ body is {body}")
@@ -392,6 +409,33 @@ def r4(ctx, rule="C19.R4"):
     from .c01 import store_then_reorder
     store_then_reorder(ctx, rule)
     P = ctx.project
+    # the SORT ordering stands on Term.__lt__: degree first (literal factors do not count), then the sorted factors
+    lt = P.method("formulaic.parser.types.term.Term", "__lt__")
+    try:
+        lo = sym.outcomes(lt.node)
+    except sym.Unmodelled as e:
+        raise AnalysisError(f"{rule}: Term.__lt__ cannot be summarised: {e}")
+    ot = param_names(lt.node)[1]
+    T_ = f"isinstance({ot}, Term)"
+    EQ, LT = f"self.degree == {ot}.degree", f"self.degree < {ot}.degree"
+    tie = sym.eval_under(lo, {T_: True, EQ: True, LT: False, f"self.degree != {ot}.degree": False}, kinds=("return",))
+    less = sym.eval_under(lo, {T_: True, EQ: False, LT: True, f"self.degree != {ot}.degree": True}, kinds=("return",))
+    more = sym.eval_under(lo, {T_: True, EQ: False, LT: False, f"self.degree != {ot}.degree": True}, kinds=("return",))
+    uses_degree = any("self.degree" in norm(c) for o in lo for c, _ in o.conds) or any(o.value is not None and "self.degree" in norm(o.value) for o in lo)
+    okl = uses_degree and len(tie) == 1 and norm(tie[0][1]) == f"sorted(self.factors) < sorted({ot}.factors)" \
+        and len(less) == 1 and norm(sym.simplify(less[0][1], {LT: True})) == "True" and len(more) == 1 and norm(sym.simplify(more[0][1], {LT: False})) == "False"
+    ctx.check(okl, rule, "terms compare by degree first, then by their sorted factors", lt.where, ctx.construct(lt, text="Term.__lt__"),
+              f"Term.__lt__ must order by Term.degree (which ignores literal factors) before the factor names; equal degree → {[norm(v) for _k, v, _e in tie]}, "
+              f"smaller → {[norm(v) for _k, v, _e in less]}, larger → {[norm(v) for _k, v, _e in more]}: ordering by the number of factors puts `2:3:g` after `a:b`")
+    # _simplify works on a copy of the structure mapping (the receiver is only rewritten when inplace=True, at the end)
+    sm = P.func(ST + "._simplify")
+    cps = [st for st in walk_no_nested(sm.node) if isinstance(st, ast.Assign) and isinstance(st.targets[0], ast.Name) and "._structure" in norm(st.value)]
+    ctx.floor(rule, len(cps), 1, "working copies of the structure in _simplify")
+    for st in cps:
+        ctx.check(sym.pm_any(["ANY_s._structure.copy()", "dict(ANY_s._structure)", "{**ANY_s._structure}", "copy.copy(ANY_s._structure)"], st.value) is not None, rule,
+                  "_simplify edits a copy of the structure mapping, not the mapping of the container it reads", sm.module.line(st), ctx.construct(sm, text="structure copy"),
+                  f"`{norm(st)}` aliases the live mapping: a non-inplace _simplify() rewrites its receiver, and an in-place one adopts (and then shares) the mapping of the "
+                  f"container it unwrapped")
     SF = P.cls("formulaic.formula.SimpleFormula")
     for name in ("insert", "__setitem__"):
         m = SF.methods[name]
